@@ -260,6 +260,38 @@ theorem sStructKey_height (enc : Enc) (fs : List (Bytes × Ty)) (seen : List (Na
         obtain ⟨_, rfl⟩ := hc
         exact lookupIdx_height name fs 0 i0 t0 hl
 
+theorem rRead_np (x : List RTok) : NP (rRead x) := by
+  cases x with
+  | nil => simp [rRead, NP]
+  | cons t r => cases t <;> simp [rRead, NP]
+
+theorem sTupFold_np (F : Ty → RTok → List RTok → R (Val × List RTok)) :
+    ∀ (ts : List Ty) (x : List RTok), (∀ t, t ∈ ts → ∀ tok r, NP (F t tok r)) → NP (sTupFold F ts x)
+  | [], x, _ => by simp [sTupFold, NP]
+  | t :: rest, x, h => by
+      simp only [sTupFold]
+      cases hr : rRead x with
+      | error e => have := rRead_np x; rw [hr] at this; simpa [NP] using this
+      | ok tr =>
+        obtain ⟨tok, r⟩ := tr
+        have hstep : NP (match F t tok r with
+            | .error e => (.error e : R (List Val × List RTok))
+            | .ok (v, r') =>
+              match sTupFold F rest r' with
+              | .error e => .error e
+              | .ok (tl, r'') => .ok (v :: tl, r'')) := by
+          have h1 := h t (List.mem_cons_self ..) tok r
+          cases hF : F t tok r with
+          | error e => rw [hF] at h1; simpa [NP] using h1
+          | ok ar =>
+            obtain ⟨a, r'⟩ := ar
+            simp only []
+            have h2 := sTupFold_np F rest r' (fun t' hm => h t' (List.mem_cons_of_mem _ hm))
+            cases hS : sTupFold F rest r' with
+            | error e => rw [hS] at h2; simpa [NP] using h2
+            | ok p => simp [NP]
+        cases tok <;> first | exact hstep | simp [NP]
+
 /-- the value deserializer on the stream: with fuel above the nesting of the type it never panics -/
 theorem sde_np (enc : Enc) : ∀ (f : Nat) (ty : Ty) (tok : RTok) (op : Op) (x : List RTok),
     ty.height < f → NP (sde enc f ty tok op x) := by
@@ -282,6 +314,18 @@ theorem sde_np (enc : Enc) : ∀ (f : Nat) (ty : Ty) (tok : RTok) (op : Op) (x :
       cases hs : sStr enc tok with
       | error e => have := sStr_np enc tok; rw [hs] at this; simpa [NP] using this
       | ok name => simp only []; split <;> simp [NP]
+    | tup ts =>
+      simp only [sde]
+      have := sTupFold_np (fun t tok r => sde enc f t tok .eq r) ts x
+        (fun t hm tok r => ih t tok .eq r (by have := mem_heightTs ts t hm; simp [Ty.height] at hh; omega))
+      cases hS : sTupFold (fun t tok r => sde enc f t tok .eq r) ts x with
+      | error e => rw [hS] at this; simpa [NP] using this
+      | ok p =>
+        obtain ⟨vs, r⟩ := p
+        simp only []
+        cases hr : rRead r with
+        | error e => have := rRead_np r; rw [hr] at this; simpa [NP] using this
+        | ok tr => obtain ⟨tok', r'⟩ := tr; cases tok' <;> simp [NP]
     | seq t =>
       simp only [sde]
       have := sSeqFold_np (fun t' r => sde enc f t t' .eq r) (x.length + 1) x (by omega)
@@ -406,6 +450,7 @@ theorem C05_textde_stream_no_panic (enc : Enc) (ty : Ty) (toks : List RTok) :
   | opt t => simp [deStream, NP]
   | seq t => simp [deStream, NP]
   | en vs => simp [deStream, NP]
+  | tup ts => simp [deStream, NP]
 
 /-! ## tape path -/
 
@@ -992,6 +1037,24 @@ theorem structEntry_np (fs : List (Bytes × Ty)) (name : Bytes) (deVal : Ty → 
       | error x => rw [hd] at this; simpa [NP] using this
       | ok v => simp [NP]
 
+theorem tTupFold_np {toks : List TTok} (hw : WfT toks = true) (deElem : Ty → VK → R Val) (e : Nat) (he : e ≤ toks.length) :
+    ∀ (ts : List Ty) (s : Nat),
+    (∀ t s', t ∈ ts → s' < toks.length → NP (deElem t (.value s'))) → NP (tTupFold toks deElem ts s e)
+  | [], s, _ => by simp [tTupFold, NP]
+  | t :: rest, s, h => by
+      simp only [tTupFold]
+      split
+      · rename_i hse
+        obtain ⟨s', hs', _, _⟩ := nextIdxValues_wf hw (show s < toks.length by omega)
+        simp only [hs']
+        have h1 := h t s (List.mem_cons_self ..) (by omega)
+        cases hd : deElem t (.value s) with
+        | error x => rw [hd] at h1; simpa [NP] using h1
+        | ok v =>
+          simp only []
+          exact np_map _ (tTupFold_np hw deElem e he rest s' (fun t' s'' hm hl => h t' s'' (List.mem_cons_of_mem _ hm) hl))
+      · simp [NP]
+
 theorem structSeq_np {toks : List TTok} (hw : WfT toks = true) (deElem : Ty → VK → R Val) (e : Nat) (he : e ≤ toks.length) :
     ∀ (fs : List (Bytes × Ty)) (s : Nat),
     (∀ n t s', (n, t) ∈ fs → s' < toks.length → NP (deElem t (.value s'))) → NP (structSeq toks deElem fs s e)
@@ -1152,6 +1215,21 @@ theorem tde_np (enc : Enc) {toks : List TTok} (hw : WfT toks = true) :
             (fun s' _ h2 => ih t (.value s') (by simp [Ty.height] at hh; omega) (by simp only [VKOk]; omega)))
         | str b bo => simp [NP]
         | map s e => simp [NP]
+    | tup ts =>
+      simp only [tde]
+      obtain ⟨hnp, hsh⟩ := tShape_wf enc hw .seq vk hv
+      cases hS : tShape enc toks shapeFuel .seq vk with
+      | error x => rw [hS] at hnp; simpa [NP] using hnp
+      | ok sh =>
+        have hok := (hsh sh hS).1
+        cases sh with
+        | seq s e =>
+          simp only [ShapeOk] at hok
+          simp only []
+          exact np_map _ (tTupFold_np hw _ e hok.1 ts s (fun t s' hm hl => ih t (.value s')
+            (by have := mem_heightTs ts t hm; simp [Ty.height] at hh; omega) (by simp only [VKOk]; exact hl)))
+        | str b bo => simp [NP]
+        | map s e => simp [NP]
     | map t =>
       simp only [tde]
       obtain ⟨hnp, hsh⟩ := tShape_wf enc hw .map vk hv
@@ -1243,6 +1321,7 @@ theorem C05_textde_tape_no_panic (enc : Enc) (ty : Ty) (toks : List TTok) (hw : 
   | opt t => simp [deTape, NP]
   | seq t => simp [deTape, NP]
   | en vs => simp [deTape, NP]
+  | tup ts => simp [deTape, NP]
 
 /-- the hypothesis is satisfiable, e.g. by the tape of `a={b=1} c={x y}` -/
 example : WfT [.unq [97], .obj 4 false, .unq [98], .unq [49], .end_ 1, .unq [99], .arr 9 false, .unq [120], .unq [121], .end_ 6] = true := by
